@@ -120,3 +120,23 @@ pub(crate) fn div_was(i: usize, l: f64, r: f64) -> bool {
     let (a, b, _) = div_call(i);
     same_f64(a, l) && same_f64(b, r)
 }
+
+// ---- wall clock ------------------------------------------------------------------
+// `chrono::Utc::now()` is a system call; harnesses replace it by an arbitrary instant of the
+// years 1970..2200 (`#[kani::stub(chrono::Utc::now, crate::verif_support::any_now)]`).
+pub(crate) fn any_now() -> chrono::DateTime<chrono::Utc> {
+    let secs: i64 = kani::any();
+    kani::assume(secs >= 0 && secs < 7_258_118_400);
+    match chrono::DateTime::<chrono::Utc>::from_timestamp(secs, 0) {
+        Some(t) => t,
+        None => { kani::assume(false); unreachable!() }
+    }
+}
+
+/// chrono's TimeDelta holds |seconds| <= i64::MAX / 1000
+pub(crate) const CHRONO_MAX_SECS: i64 = i64::MAX / 1000;
+pub(crate) fn any_duration() -> chrono::Duration {
+    let s: i64 = kani::any();
+    kani::assume(s >= -CHRONO_MAX_SECS && s <= CHRONO_MAX_SECS);
+    chrono::Duration::seconds(s)
+}
